@@ -16,6 +16,7 @@ go build -o "$SCR/schedinst" ./cmd/schedinst
   -pkg mempool:sync \
   -stmt "dpos/state:State.GetAllProducers" \
   -stmt "utils:HeightChanges.commit" \
+  -stmt "mempool:TxPool.doRemoveTransaction" \
   -stmt "core/transaction:ReturnVotesTransaction.SpecialContextCheck,VotingTransaction.SpecialContextCheck,VotingTransaction.checkDPoSV2Content" >/dev/null
 go build -tags "verif vsched" ${VERIF_MODFLAGS:-} -overlay "$SCR/overlay.json" -o "$VERIF_BIN" ./checks/c40
 # the free-running pass uses the shims too (they delegate to the real primitives when no
